@@ -20,3 +20,6 @@ func verifWalRead(ents []raftpb.Entry) {}
 
 // verifReplayed sees raft's storage after the WAL was replayed into it.
 func verifReplayed(rs raft.IExtRaftStorage) {}
+
+// verifStorage hands the hooks raft's storage (read-only use: LastIndex after an append).
+func verifStorage(rs raft.IExtRaftStorage) {}
